@@ -45,7 +45,11 @@ HOSTILE = [
     "return 5\n", "break\n", "continue\n", "pass\n" * 300, "db.Setting = " + "(" * 60 + "1" + ")" * 60 + "\n", "db.Setting = " + "-" * 200 + "1\n",
     "x = 1\n" + "if x:\n" + "".join("    " * (i + 1) + "if x:\n" for i in range(30)) + "    " * 32 + "db.On = 1\n",
     "\x00", "db.Setting = 1\x00\n", "\ufeffdb.Setting = 1\n", "db.Setting = 1\r\ndb.On = 2\r\n", "\tdb.Setting = 1\n", "db.Setting = '\\ud800'\n", "é = 1\ndb.Setting = é\n",
-    "# pytrapic: compact, bogus, __class__, no-\n", "# pytrapic:\n", "#" * 5000 + "\n", "", "\n\n\n", " ", "require 'x'\n", "-- lua comment\n", "require\n",
+    "# pytrapic: compact, bogus, __class__, no-\n", "# pytrapic:\n",
+    # the directive marker in places where it is no comment
+    '"""pytrapic: compact"""\ndb.Setting = 1\n', "x = 'pytrapic: no-compact'\ndb.Setting = 1\n", "pytrapic: compact\ndb.Setting = 1\n", "db.Setting = 1  # pytrapic: compact\n",
+    "# pytrapic: compact # pytrapic: no-compact\n", "#pytrapic:compact\n", "  # pytrapic: compact\ndb.Setting = 1\n", "def f():\n    \"\"\"doc\n    pytrapic: inline-functions\n    \"\"\"\n    db.On = 1\nf()\n",
+    "db.Setting = HASH('pytrapic:')\n", "pytrapic:", "x = 1 # pytrapic:\n# pytrapic: \n#pytrapic:no-\n", "#" * 5000 + "\n", "", "\n\n\n", " ", "require 'x'\n", "-- lua comment\n", "require\n",
 ]
 
 
@@ -128,7 +132,8 @@ def run(tier: str, seed: int) -> int:
             inputs.append((s[:i], None, "prefix"))
     # token / byte mutations
     toks = ["(", ")", ":", "\n", "    ", "=", "def ", "return ", "while ", "if ", "else:", "for ", " in ", "range(", "db.", "d0.", ".Setting", "[", "]", ",", "+", "-", "*", "/", "%", "**", "<", ">", "not ", "and ",
-            "1", "0.5", "x", "f", "HASH(\"a\")", "yield_()", "@constexpr\n", "global ", "break", "continue", "\"", "'", "#", "\\", "\x00", "\t", "é", "lambda ", "class ", "import ", "~", "None", "True"]
+            "1", "0.5", "x", "f", "HASH(\"a\")", "yield_()", "@constexpr\n", "global ", "break", "continue", "\"", "'", "#", "\\", "\x00", "\t", "é", "lambda ", "class ", "import ", "~", "None", "True",
+            "pytrapic:", "# pytrapic: compact\n", " pytrapic: no-compact ", "\"\"\""]
     for i in range(250 if tier == "quick" else 20000):
         s = r.choice(pick)
         k = r.random()
